@@ -251,27 +251,27 @@ fn run_compiled(inst: &Inst) -> Option<Case> {
             c.imp = format!("(ok {})", sx::domain(&published));
             c.nontrivial = lm.variables().iter().any(|v| v.starts_with('$'));
             if c.nontrivial { kind = "compiled-aux"; }
-            // pseudo report for the oracle: the published domain of every declared variable (declared one if it was dropped)
+            // The published domain of every USED declared variable must be the one `verif_hooks::linearizer_bounds` reports
+            // (the hook runs the same three steps); the oracle then gets the hook's full report, so that its root-cause
+            // classification (Shadow run == implementation) applies here as well.
             let src = model.domain();
-            let mut vars = String::from("(vars");
-            let mut dom = IndexMap::new();
-            for (n, dv) in src {
-                let t = published.get(n).map(|p| *p.get_type()).unwrap_or(*dv.get_type());
-                let (lo, hi) = match t {
-                    VariableType::Boolean => (0.0, 1.0),
-                    VariableType::IntegerRange(a, b) => (a as f64, b as f64),
-                    VariableType::NonNegativeReal(a, b) | VariableType::Real(a, b) => (a, b),
-                };
-                vars.push(' '); vars.push_str(&b(lo, hi));
-                let mut nd = DomainVariable::new(canon_ty(&t), InputSpan::default());
-                for _ in 0..dv.usage_count() { nd.increment_usage(); }
-                dom.insert(n.clone(), nd);
+            let rep = linearizer_bounds(src, &inst.constraints);
+            for (n, dv) in &published {
+                if n.starts_with('$') { continue; }
+                let hooked = rep.domain.get(n).map(|d| sx::var_type(&canon_ty(d.get_type())));
+                if hooked.as_deref() != Some(sx::var_type(dv.get_type()).as_str()) && c.impl_violation.is_none() {
+                    c.impl_violation = Some(format!("Linearizer::linearize publishes {} as {:?} but analyze|>enforceable|>apply_to_domain gives {:?}", n, dv.get_type(), rep.domain.get(n).map(|d| *d.get_type())));
+                }
             }
-            vars.push(')');
+            let mut imp = String::from("(ok (vars");
+            for (_, lo, hi) in &rep.variables { imp.push(' '); imp.push_str(&b(*lo, *hi)); }
+            imp.push_str(") (exprs) ");
+            imp.push_str(&sx::domain(&canon_dom(&rep.domain)));
+            imp.push(')');
             let mut tail = format!("{} {} (constraints", sx::num(default_tolerance()), sx::domain(src));
             for x in &norm { tail.push(' '); tail.push_str(&sx::constraint(x)); }
             tail.push(')');
-            c.oracle = format!("check-lin {} (ok {} (exprs) {})", tail, vars, sx::domain(&dom));
+            c.oracle = format!("check-lin {} {}", tail, imp);
         }
         // which error, and whether the port agrees on it, is C01's subject (detailed error diff there)
         Ok(Err(_)) => { c.imp = "(err)".into(); c.req = String::new(); kind = "compile-error"; }
